@@ -16,14 +16,14 @@ import (
 	"github.com/google/martian/v3/zzverif/vf"
 )
 
-type fakeAddr string
+type zzfakeAddr string
 
-func (a fakeAddr) Network() string { return "tcp" }
-func (a fakeAddr) String() string  { return string(a) }
+func (a zzfakeAddr) Network() string { return "tcp" }
+func (a zzfakeAddr) String() string  { return string(a) }
 
 // clientConn is the client side of a proxied connection as the proxy sees it:
 // a scripted byte source and a recording sink.
-type clientConn struct {
+type zzclientConn struct {
 	segs      [][]byte // bytes the client sends, one Read returns at most one segment
 	thenEOF   bool     // after the segments: client closes (EOF); otherwise it stays idle
 	out       bytes.Buffer
@@ -38,16 +38,16 @@ type clientConn struct {
 	tag       string
 }
 
-func newClientConn(tag string, thenEOF bool, segs ...[]byte) *clientConn {
-	return &clientConn{segs: segs, thenEOF: thenEOF, closedc: make(chan struct{}), tag: tag, failAfter: -1}
+func zznewClientConn(tag string, thenEOF bool, segs ...[]byte) *zzclientConn {
+	return &zzclientConn{segs: segs, thenEOF: thenEOF, closedc: make(chan struct{}), tag: tag, failAfter: -1}
 }
 
-var errConnClosed = errors.New("use of closed network connection")
+var zzerrConnClosed = errors.New("use of closed network connection")
 
-func (c *clientConn) Read(p []byte) (int, error) {
+func (c *zzclientConn) Read(p []byte) (int, error) {
 	c.reads++
 	if c.closed > 0 {
-		return 0, errConnClosed
+		return 0, zzerrConnClosed
 	}
 	for len(c.segs) > 0 && len(c.segs[0]) == 0 {
 		c.segs = c.segs[1:]
@@ -61,13 +61,13 @@ func (c *clientConn) Read(p []byte) (int, error) {
 		return 0, io.EOF
 	}
 	<-c.closedc // idle client: blocks until the proxy closes the connection
-	return 0, errConnClosed
+	return 0, zzerrConnClosed
 }
 
-func (c *clientConn) Write(p []byte) (int, error) {
+func (c *zzclientConn) Write(p []byte) (int, error) {
 	c.writes++
 	if c.closed > 0 {
-		return 0, errConnClosed
+		return 0, zzerrConnClosed
 	}
 	if c.failAfter >= 0 {
 		room := c.failAfter - c.out.Len()
@@ -84,21 +84,21 @@ func (c *clientConn) Write(p []byte) (int, error) {
 	return len(p), nil
 }
 
-func (c *clientConn) Close() error {
+func (c *zzclientConn) Close() error {
 	c.closed++
 	if c.closed == 1 {
 		close(c.closedc)
 	}
 	return nil
 }
-func (c *clientConn) LocalAddr() net.Addr                { return fakeAddr("10.0.0.2:8080") }
-func (c *clientConn) RemoteAddr() net.Addr               { return fakeAddr("10.0.0.1:5555") }
-func (c *clientConn) SetDeadline(t time.Time) error      { c.deadline++; return nil }
-func (c *clientConn) SetReadDeadline(t time.Time) error  { c.deadline++; return nil }
-func (c *clientConn) SetWriteDeadline(t time.Time) error { c.deadline++; return nil }
+func (c *zzclientConn) LocalAddr() net.Addr                { return zzfakeAddr("10.0.0.2:8080") }
+func (c *zzclientConn) RemoteAddr() net.Addr               { return zzfakeAddr("10.0.0.1:5555") }
+func (c *zzclientConn) SetDeadline(t time.Time) error      { c.deadline++; return nil }
+func (c *zzclientConn) SetReadDeadline(t time.Time) error  { c.deadline++; return nil }
+func (c *zzclientConn) SetWriteDeadline(t time.Time) error { c.deadline++; return nil }
 
 // seenReq is what the origin observed of one request.
-type seenReq struct {
+type zzseenReq struct {
 	method, url, host string
 	header            http.Header
 	body              []byte
@@ -107,15 +107,15 @@ type seenReq struct {
 }
 
 // origin is the round tripper standing for the upstream server.
-type origin struct {
-	seen   []seenReq
+type zzorigin struct {
+	seen   []zzseenReq
 	answer func(i int, req *http.Request) (*http.Response, error)
 	// wraps: the round tripper is a wrapper (tracing, retries) that works on a copy of the
 	// request, so the response it returns refers to that copy
 	wraps bool
 }
 
-func (o *origin) RoundTrip(req *http.Request) (*http.Response, error) {
+func (o *zzorigin) RoundTrip(req *http.Request) (*http.Response, error) {
 	var body []byte
 	if req.Body != nil {
 		body, _ = ioutil.ReadAll(req.Body)
@@ -124,7 +124,7 @@ func (o *origin) RoundTrip(req *http.Request) (*http.Response, error) {
 	for k, v := range req.Header {
 		h[k] = append([]string(nil), v...)
 	}
-	o.seen = append(o.seen, seenReq{req.Method, req.URL.String(), req.Host, h, body, req.URL.Scheme, req.TLS != nil})
+	o.seen = append(o.seen, zzseenReq{req.Method, req.URL.String(), req.Host, h, body, req.URL.Scheme, req.TLS != nil})
 	res, err := o.answer(len(o.seen)-1, req)
 	if o.wraps && res != nil {
 		r2 := *req
@@ -134,12 +134,12 @@ func (o *origin) RoundTrip(req *http.Request) (*http.Response, error) {
 }
 
 // rawResponse parses wire bytes into a response the way http.Transport does.
-func rawResponse(raw []byte, req *http.Request) (*http.Response, error) {
+func zzrawResponse(raw []byte, req *http.Request) (*http.Response, error) {
 	return http.ReadResponse(bufio.NewReader(bytes.NewReader(raw)), req)
 }
 
 // wireRequest renders a request as a client writes it.
-type reqSpec struct {
+type zzreqSpec struct {
 	method   string
 	absolute bool
 	path     string
@@ -150,7 +150,7 @@ type reqSpec struct {
 	http10   bool // the client speaks HTTP/1.0 (no keep-alive: the connection ends with the response)
 }
 
-func (r reqSpec) wire() []byte {
+func (r zzreqSpec) wire() []byte {
 	var b bytes.Buffer
 	target := r.path
 	if r.absolute {
@@ -183,7 +183,7 @@ func (r reqSpec) wire() []byte {
 }
 
 // resSpec renders an origin response.
-type resSpec struct {
+type zzresSpec struct {
 	status  int
 	framing int // 0 content-length, 1 chunked, 2 close-delimited
 	hval    string
@@ -192,7 +192,7 @@ type resSpec struct {
 	http10  bool // the origin answers with an HTTP/1.0 status line
 }
 
-func (r resSpec) wire() []byte {
+func (r zzresSpec) wire() []byte {
 	var b bytes.Buffer
 	proto := "HTTP/1.1 "
 	if r.http10 {
@@ -225,7 +225,7 @@ func (r resSpec) wire() []byte {
 }
 
 // clientView parses what the proxy wrote to the client as a sequence of responses.
-type gotRes struct {
+type zzgotRes struct {
 	status int
 	hval   []string
 	body   []byte
@@ -234,20 +234,20 @@ type gotRes struct {
 	ok     bool
 }
 
-func clientView(out []byte, methods []string) []gotRes {
+func zzclientView(out []byte, methods []string) []zzgotRes {
 	br := bufio.NewReader(bytes.NewReader(out))
-	var rs []gotRes
+	var rs []zzgotRes
 	for _, m := range methods {
 		if _, err := br.Peek(1); err != nil {
 			break
 		}
 		res, err := http.ReadResponse(br, &http.Request{Method: m})
 		if err != nil {
-			rs = append(rs, gotRes{})
+			rs = append(rs, zzgotRes{})
 			break
 		}
 		body, berr := ioutil.ReadAll(res.Body)
-		rs = append(rs, gotRes{status: res.StatusCode, hval: res.Header["X-B"], body: body, close: res.Close, header: res.Header, ok: berr == nil})
+		rs = append(rs, zzgotRes{status: res.StatusCode, hval: res.Header["X-B"], body: body, close: res.Close, header: res.Header, ok: berr == nil})
 		if res.Close {
 			break
 		}
@@ -255,7 +255,7 @@ func clientView(out []byte, methods []string) []gotRes {
 	return rs
 }
 
-func alnum(s string) {
+func zzalnum(s string) {
 	for i := 0; i < len(s); i++ {
 		c := s[i]
 		vf.Assume((c >= 'a' && c <= 'z') || (c >= '0' && c <= '9'))
@@ -265,22 +265,22 @@ func alnum(s string) {
 // serveConn serves one connection through the exported API: Serve is given a listener that
 // hands out the connection once and then reports that it is closed, and the handler goroutine
 // Serve started is run until it has finished (or can make no more progress).
-func serveConn(p *Proxy, conn net.Conn) {
-	p.Serve(&oneConnListener{conn: conn})
+func zzserveConn(p *Proxy, conn net.Conn) {
+	p.Serve(&zzoneConnListener{conn: conn})
 	vf.Quiesce()
 }
 
-type oneConnListener struct {
+type zzoneConnListener struct {
 	conn net.Conn
 	used bool
 }
 
-func (l *oneConnListener) Accept() (net.Conn, error) {
+func (l *zzoneConnListener) Accept() (net.Conn, error) {
 	if l.used {
 		return nil, net.ErrClosed
 	}
 	l.used = true
 	return l.conn, nil
 }
-func (l *oneConnListener) Close() error   { return nil }
-func (l *oneConnListener) Addr() net.Addr { return fakeAddr("10.0.0.2:8080") }
+func (l *zzoneConnListener) Close() error   { return nil }
+func (l *zzoneConnListener) Addr() net.Addr { return zzfakeAddr("10.0.0.2:8080") }
